@@ -1,8 +1,32 @@
+// Package c10 is the driver of property C10: the shared collections of golib
+// (util/hmap, util/list LinkedList, util/queue) are linearizable, race-free
+// between point operations and never self-deadlock.
+//
+//	(always)   the lock table is extracted from the working tree (extract.go)
+//	           and written to locktable.json: the JSON constant of
+//	           spec/LockDiscipline.tla
+//	footprint  which public methods park on the instance lock (static.go)
+//	watchdog   every public method returns and leaves the lock free (static.go)
+//	lin        concurrent invocation/response histories of point operations
+//	           (conc.go), judged by Trace_Linearize
+//	race       [race-detector build, mode=race] the same programs unstamped;
+//	           race reports become Race events (race.go)
+//	racepair   [race-detector build] two goroutines hammering one pair of
+//	           public methods each (args pairs=Type:a:b+...): the runner asks
+//	           for the pairs TLC predicted to race on the extracted table
+//
+// The harness only records; TLC judges.
 package c10
 
 import (
+	"fmt"
 	"os"
 	"path/filepath"
+	"sort"
+	"strings"
+	"sync"
+	"syscall"
+	"time"
 
 	"verifharness/core"
 )
@@ -24,5 +48,438 @@ func Run(c *core.Ctx) error {
 	if err := WriteTable(tab, filepath.Join(c.OutDir, "locktable.json")); err != nil {
 		return err
 	}
+	nm, ns, unl := 0, 0, map[string][]string{}
+	for tn, ti := range tab.Types {
+		for mn, m := range ti.Methods {
+			nm++
+			ns += len(m.Steps)
+			if m.Pub && !takes(tab, tn, mn, 8) {
+				unl[tn] = append(unl[tn], mn)
+			}
+		}
+		sort.Strings(unl[tn])
+	}
+	c.SetExtra("lock_table", map[string]interface{}{"types": len(tab.Types), "methods": nm, "steps": ns,
+		"public_methods_that_never_take_the_instance_lock": unl})
+	c.Rule = "a footprint / watchdog case counts per (type, public method, variant); a concurrent history counts when at least two goroutines ran and at least one call mutated the collection"
+	for tn := range tab.Types {
+		if ctors[tn] == nil {
+			return fmt.Errorf("the table has a lock-carrying type %s the driver cannot construct", tn)
+		}
+	}
+	for tn := range ctors { // a type that lost its (recognisable) lock field would silently leave the model
+		if tab.Types[tn] == nil {
+			return fmt.Errorf("collection type %s is not in the extracted table: no field of type sync.Mutex / *sync.Cond found in it", tn)
+		}
+	}
+	switch c.Args["mode"] {
+	case "table":
+		c.Rule = ""
+		return nil
+	case "race":
+		c.Rule = ""
+		if !RaceBuild {
+			return fmt.Errorf("mode=race needs the race-detector build of the harness")
+		}
+		if newRaceLog() == nil { // the race runtime reads GORACE at start-up: set it and start again
+			exe, err := os.Executable()
+			if err != nil {
+				return err
+			}
+			os.Setenv("GORACE", "log_path="+filepath.Join(c.OutDir, "racelog")+" halt_on_error=0 atexit_sleep_ms=0 exitcode=0")
+			return syscall.Exec(exe, os.Args, os.Environ())
+		}
+		if err := runRaceHistories(c, tab); err != nil {
+			return err
+		}
+		return runRacePairs(c, tab)
+	}
+	if err := runFootprint(c, tab); err != nil {
+		return err
+	}
+	if err := runWatchdog(c, tab); err != nil {
+		return err
+	}
+	return runLin(c)
+}
+
+// takes: does method m of type tn (transitively, through same-receiver calls) take the instance lock
+func takes(tab *Table, tn, m string, d int) bool {
+	ti := tab.Types[tn]
+	mi := ti.Methods[m]
+	if mi == nil || d == 0 {
+		return false
+	}
+	for _, s := range mi.Steps {
+		if s.K == "acq" || (s.K == "call" && s.A == "" && takes(tab, tn, s.B, d-1)) {
+			return true
+		}
+	}
+	return false
+}
+
+// ---------------------------------------------------------------- histories
+
+const caseStride = 100000
+
+// histories per collection source: stamped (TLC validates ~30 000 events/s) / under the race detector
+func cases(c *core.Ctx, gen string) int {
+	if gen == "race" {
+		return c.Pick(40, 800)
+	}
+	return c.Pick(120, 2500)
+}
+
+// history (source si, number n) -> case id; the pool is shared by 8 consecutive cases
+func forEachCase(c *core.Ctx, gen string, f func(cas int, src source, fresh func() *cobj, prog *program)) {
+	srcs := sources()
+	for si, src := range srcs {
+		for n := 0; n < cases(c, gen); n++ {
+			cas := si*caseStride + n
+			if !c.Want(gen, cas) {
+				continue
+			}
+			variant := n / 8
+			fresh := src.New(c.Rng("pool", si*caseStride+variant), variant)
+			prog := genProgram(c.Rng("prog", cas), fresh())
+			f(cas, src, fresh, prog)
+		}
+	}
+}
+
+func nontrivial(p *program) bool {
+	if len(p.Threads) < 2 {
+		return false
+	}
+	for _, t := range p.Threads {
+		for _, op := range t {
+			if mutators[op.Name] {
+				return true
+			}
+		}
+	}
+	return false
+}
+
+func progKey(co *cobj, p *program) string {
+	return fmt.Sprintf("%s|%s|%d|%v|%v", co.Type, co.Ctor, p.Max, p.Prefix, p.Threads)
+}
+
+func resetHdr(co *cobj, p *program) core.Ev {
+	h := core.Ev{"t": co.Type, "ctor": co.Ctor, "nondet": true, "max": p.Max}
+	for k, v := range co.Hdr {
+		h[k] = v
+	}
+	if co.Pool != nil {
+		h["pool"] = co.Pool
+	}
+	return h
+}
+
+// one fixed history (binding self-test): every answer in it is pinned
+func runSelf(c *core.Ctx, t *core.Trace) {
+	const gen = "self"
+	if !c.Want(gen, 0) {
+		return
+	}
+	var src source
+	for _, s := range sources() {
+		if s.Type == "IntKeyLinkedMap" {
+			src = s
+		}
+	}
+	co := src.New(c.Rng("pool", 0), 0)()
+	prog := &program{Prefix: []pop{{"Put", 1, 1}, {"Put", 1, 2}, {"Size", 1, 0}, {"Get", 1, 0}, {"Put", 2, 3}},
+		Threads: [][]pop{{{"Size", 1, 0}, {"Get", 2, 0}}, {{"ContainsKey", 1, 0}, {"IsEmpty", 1, 0}}}}
+	t.Reset(gen, 0, resetHdr(co, prog))
+	log, _, _ := runProgram(co, prog, true, c.Rng("yield", 0))
+	for _, e := range log {
+		t.Emit(e)
+	}
+	fin := co.Final()
+	fin["ev"] = "Final"
+	t.Emit(fin)
+	c.Count("self", true)
+}
+
+func runLin(c *core.Ctx) error {
+	const gen = "lin"
+	t0 := c.Trace("lin0", "Trace_Linearize")
+	runSelf(c, t0)
+	runForced(c, t0)
+	if !c.WantGen(gen) {
+		return nil
+	}
+	traces := map[int]*core.Trace{0: t0}
+	overlap := 0
+	forEachCase(c, gen, func(cas int, src source, fresh func() *cobj, prog *program) {
+		co := fresh()
+		if !co.Lin {
+			return
+		}
+		grp := cas / caseStride / 5 // five collection types per trace file
+		t := traces[grp]
+		if t == nil {
+			t = c.Trace(fmt.Sprintf("lin%d", grp), "Trace_Linearize")
+			traces[grp] = t
+		}
+		t.Reset(gen, cas, resetHdr(co, prog))
+		log, _, finished := runProgram(co, prog, true, c.Rng("yield", cas))
+		open, ov := map[int]bool{}, false
+		for _, e := range log {
+			switch e["ev"] {
+			case "Inv":
+				if len(open) > 0 {
+					ov = true
+				}
+				open[e["p"].(int)] = true
+			case "Ret":
+				delete(open, e["p"].(int))
+			}
+			t.Emit(e)
+		}
+		if ov {
+			overlap++
+		}
+		if !finished {
+			t.Emit(core.Ev{"ev": "Timeout", "after": historyWatchdog.String()})
+		} else if len(open) == 0 {
+			var fin core.Ev
+			if msg := core.Guard(func() { fin = co.Final() }); msg != "" {
+				t.Emit(core.Ev{"ev": "Panic", "p": 0, "o": "Final", "msg": msg})
+			} else {
+				fin["ev"] = "Final"
+				t.Emit(fin)
+			}
+		}
+		c.Count(progKey(co, prog), nontrivial(prog))
+		if cas%caseStride == 0 {
+			c.Sample(map[string]interface{}{"gen": gen, "case": cas, "type": co.Type, "threads": len(prog.Threads), "calls": prog.calls(), "log_head": head(log, 6)})
+		}
+	})
+	c.SetExtra("lin_histories_with_overlapping_calls", overlap)
 	return nil
+}
+
+// forced: a bounded queue kept full while one goroutine forces elements in and
+// another reads the size: a forced put evicts and appends; a size read between
+// the two is an answer no sequential execution gives.
+func runForced(c *core.Ctx, t *core.Trace) {
+	const gen = "forced"
+	if !c.WantGen(gen) {
+		return
+	}
+	for cas := 0; cas < c.Pick(600, 3000); cas++ {
+		if !c.Want(gen, cas) {
+			continue
+		}
+		capacity := 1 + cas%3
+		co := newQueueObj(capacity)
+		prog := &program{}
+		id := 0
+		for i := 0; i < capacity; i++ {
+			id++
+			prog.Prefix = append(prog.Prefix, pop{"QPut", id, 0})
+		}
+		var a, b []pop
+		for i := 0; i < 6; i++ {
+			id++
+			a = append(a, pop{"QPutForce", id, 0})
+			b = append(b, pop{"Size", 0, 0})
+		}
+		prog.Threads = [][]pop{a, b}
+		if cas%2 == 1 {
+			var d []pop
+			for i := 0; i < 4; i++ {
+				id++
+				d = append(d, pop{"QPutForce", id, 0})
+			}
+			prog.Threads = append(prog.Threads, d)
+		}
+		t.Reset(gen, cas, resetHdr(co, prog))
+		log, _, finished := runProgram(co, prog, true, c.Rng("yield", cas))
+		for _, e := range log {
+			t.Emit(e)
+		}
+		if !finished {
+			t.Emit(core.Ev{"ev": "Timeout", "after": historyWatchdog.String()})
+		} else {
+			fin := co.Final()
+			fin["ev"] = "Final"
+			t.Emit(fin)
+		}
+		c.Count(progKey(co, prog), true)
+	}
+}
+
+func head(es []core.Ev, n int) []core.Ev {
+	if len(es) > n {
+		return es[:n]
+	}
+	return es
+}
+
+// emitRaces turns the new race reports into events of the current history.
+func emitRaces(t *core.Trace, rl *raceLog, typ string) (int, error) {
+	if rl == nil {
+		return 0, nil
+	}
+	reps, err := rl.next()
+	if err != nil {
+		return 0, err
+	}
+	for _, r := range reps {
+		if r.OuterT[0] == "" || r.OuterT[1] == "" {
+			return 0, fmt.Errorf("the race detector reported a race that does not lie between two golib collection calls (harness defect?):\n%s", r.Text)
+		}
+		t.Emit(core.Ev{"ev": "Race", "t": typ, "a": r.OuterM[0], "b": r.OuterM[1], "ta": r.OuterT[0], "tb": r.OuterT[1],
+			"ia": r.Inner[0], "ib": r.Inner[1], "ka": r.Kind[0], "kb": r.Kind[1]})
+	}
+	return len(reps), nil
+}
+
+func runRaceHistories(c *core.Ctx, tab *Table) error {
+	const gen = "race"
+	if !c.WantGen(gen) {
+		return nil
+	}
+	t := c.Trace("race", "Trace_LockDiscipline")
+	rl := newRaceLog()
+	if rl == nil {
+		return fmt.Errorf("mode=race needs GORACE=log_path=...")
+	}
+	var ferr error
+	races := 0
+	forEachCase(c, gen, func(cas int, src source, fresh func() *cobj, prog *program) {
+		if ferr != nil {
+			return
+		}
+		co := fresh()
+		t.Reset(gen, cas, core.Ev{"t": co.Type, "ctor": co.Ctor, "nondet": true})
+		// one execution per history; when a single history is re-run (triage, replay) the same
+		// program is executed on fresh instances until the detector speaks or 30 executions passed
+		rounds := 1
+		if c.OnlyGen == gen && c.OnlyCase >= 0 {
+			rounds = 30
+		}
+		for round := 0; round < rounds && ferr == nil; round++ {
+			if round > 0 {
+				co = fresh()
+			}
+			log, panics, finished := runProgram(co, prog, false, c.Rng("yield", cas*64+round))
+			for _, e := range log { // only Panic records in this mode
+				t.Emit(e)
+			}
+			if !finished {
+				t.Emit(core.Ev{"ev": "Timeout", "after": historyWatchdog.String()})
+			}
+			t.Emit(core.Ev{"ev": "Ran", "t": co.Type, "threads": len(prog.Threads), "calls": prog.calls(), "panics": panics, "round": round})
+			n, err := emitRaces(t, rl, co.Type)
+			if err != nil {
+				ferr = err
+			}
+			races += n
+			if n > 0 || panics > 0 || !finished {
+				break
+			}
+		}
+		t.Emit(core.Ev{"ev": "Done"})
+		c.Count(progKey(co, prog), nontrivial(prog))
+	})
+	c.SetExtra("race_reports_in_random_histories", races)
+	return ferr
+}
+
+// the directed pairs: args pairs=Type:a:b+Type:a:b
+func runRacePairs(c *core.Ctx, tab *Table) error {
+	const gen = "racepair"
+	spec := c.Args["pairs"]
+	if spec == "" || !c.WantGen(gen) {
+		return nil
+	}
+	t := c.Trace("racepair", "Trace_LockDiscipline")
+	rl := newRaceLog()
+	if rl == nil {
+		return fmt.Errorf("mode=race needs GORACE=log_path=...")
+	}
+	rl.next() // whatever the random histories left unread belongs to them
+	for cas, ps := range strings.Split(spec, "+") {
+		if !c.Want(gen, cas) {
+			continue
+		}
+		f := strings.Split(ps, ":")
+		if len(f) != 3 || tab.Types[f[0]] == nil {
+			return fmt.Errorf("bad pair %q", ps)
+		}
+		tn, a, b := f[0], f[1], f[2]
+		t.Reset(gen, cas, core.Ev{"t": tn, "nondet": true})
+		out, found := "returned", 0
+		for round := 0; round < 6 && found == 0 && out == "returned"; round++ {
+			var err error
+			if out, err = hammer(tn, a, b); err != nil {
+				return err
+			}
+			t.Emit(core.Ev{"ev": "Pair", "t": tn, "a": a, "b": b, "out": out, "round": round})
+			if found, err = emitRaces(t, rl, tn); err != nil {
+				return err
+			}
+		}
+		t.Emit(core.Ev{"ev": "Done"})
+		c.Count("pair|"+ps, true)
+	}
+	return nil
+}
+
+// hammer: two goroutines on one fresh populated instance, one calling a, the
+// other b, with nothing between them but the instance's own synchronisation.
+func hammer(tn, a, b string) (string, error) {
+	obj, err := newPopulated(tn)
+	if err != nil {
+		return "", err
+	}
+	reps := func(m string) int {
+		if blocksWhenEmpty(tn, m) {
+			return 2
+		}
+		return 60
+	}
+	var wg sync.WaitGroup
+	start := make(chan struct{})
+	var pmu sync.Mutex
+	panicked := false
+	for _, m := range []string{a, b} {
+		calls := make([]func(), reps(m))
+		for i := range calls {
+			if calls[i], err = caller(obj, tn, m, 1+i%(populated+2)); err != nil {
+				return "", err
+			}
+		}
+		wg.Add(1)
+		go func() {
+			defer wg.Done()
+			<-start
+			for _, call := range calls {
+				if msg := core.Guard(call); msg != "" {
+					pmu.Lock()
+					panicked = true
+					pmu.Unlock()
+					return
+				}
+			}
+		}()
+	}
+	close(start)
+	done := make(chan struct{})
+	go func() { wg.Wait(); close(done) }()
+	select {
+	case <-done:
+	case <-time.After(historyWatchdog):
+		return "timeout", nil
+	}
+	pmu.Lock()
+	defer pmu.Unlock()
+	if panicked {
+		return "panicked", nil
+	}
+	return "returned", nil
 }
